@@ -196,8 +196,43 @@ def all_pairs_small(tier, rng):
                 yield ({"cls": cls, "kind": kind, "n": n, "len": len(ops), "exh": n <= 2}, ops)
 
 
+def huge_weight_family(tier, rng):
+    """weighted graphs whose running total is NOT exactly representable (weights of very different
+    magnitude, inserted in different orders, or added and removed again): `==` must still depend on
+    the edges and their weights only.  Quiet mode: the totals themselves (rounded in the
+    implementation, exact in the model) are not compared — only the verdicts of `==`."""
+    big = 4 * 10 ** 20   # quarter units: 1e20
+    for cls in WEIGHTED:
+        for rep in range(scale(tier, 6, 40)):
+            n = rng.randint(3, 5)
+            pairs = []
+            while len(pairs) < 3:
+                p = gen.pick_pair(rng, n, loops=0.1)
+                key = (min(p), max(p)) if cls == "uw" else p
+                if key not in [((min(q), max(q)) if cls == "uw" else q) for q in pairs]:
+                    pairs.append(p)
+            ws = [big, 4, -big]
+            rng.shuffle(ws)
+            es = list(zip(pairs, ws))
+            order2 = es[:]
+            rng.shuffle(order2)
+            ops = ["mode quiet", gen.new_line(0, cls, "-", n), gen.new_line(1, cls, "-", n)]
+            for ((i, j), w) in es:
+                ops.append(f"addEdge 0 {i} {j} {w} 0")
+            for ((i, j), w) in order2:
+                ops.append(f"addEdge 1 {i} {j} {w} 0")
+            ops += ["eq 0 1", "eq 1 0"]
+            # a transient huge edge in graph 1 only
+            c, d = gen.pick_pair(rng, n)
+            ops += [f"addEdge 1 {c} {d} {big * 1000} 0"]
+            if (c, d) not in pairs and ((d, c) not in pairs or cls != "uw"):
+                ops += [f"removeEdge 1 {c} {d}", "eq 0 1", "eq 1 0"]
+            yield ({"cls": cls, "kind": "-", "n": n, "len": len(ops), "family": "huge-weights"}, ops)
+
+
 def wl_C06(tier, rng):
     yield from all_pairs_small(tier, rng)
+    yield from huge_weight_family(tier, rng)
     for _ in range(scale(tier, 1500, 30000)):
         cls = rng.choice(ALL_CLASSES)
         kind = rng.choice(KINDS_ALL) if cls in SIMPLE else "-"
@@ -336,7 +371,24 @@ def missing_edge_calls(cls, kind, n, rng):
     return calls
 
 
+def forced_label_family():
+    """a forced setEdgeLabel on a pair that is not an edge (documented as allowed) must not change
+    what the *unforced* call does on that still-missing edge: invalid_argument, nothing changed"""
+    for cls in SIMPLE:
+        for kind in ("int", "str", "pt"):
+            for (i, j) in ((0, 1), (1, 0), (2, 2)):
+                for pre in ([], ["addEdge 0 0 2 3 0"], [f"addEdge 0 {i} {j} 3 0", f"removeEdge 0 {i} {j}"]):
+                    ops = [gen.new_line(0, cls, kind, 3)] + pre + [
+                        f"setEdgeLabel 0 {i} {j} 7 1", "dump 0",
+                        f"setEdgeLabel 0 {i} {j} 4 0", "dump 0",
+                        f"q 0 getEdgeLabel {i} {j} 1", f"q 0 hasEdge {i} {j}",
+                        f"setEdgeLabel 0 {j} {i} 5 0", "dump 0"]
+                    yield ({"cls": cls, "kind": kind, "n": 3, "len": len(ops), "family": "forced-label"}, ops)
+
+
 def wl_C07(tier, rng):
+    for item in forced_label_family():
+        yield item
     for it in range(scale(tier, 160, 2500)):
         cls = rng.choice(ALL_CLASSES)
         kind = rng.choice(KINDS_ALL) if cls in SIMPLE else "-"
